@@ -1,37 +1,179 @@
 import Anysystem.Spec.SearchSpec
+import Anysystem.Proofs.SearchLemmas
+import Anysystem.Proofs.SearchAcc
+import Anysystem.Proofs.SearchDfs
+import Anysystem.Proofs.SearchBfs
+import Anysystem.Proofs.SearchDepth
+set_option linter.unusedSectionVars false
+
 namespace Anysystem
 
 variable {σ κ : Type} [DecidableEq κ]
+
+/-! ## The accumulator the strategies start from, and helper corollaries -/
+
+/-- the accumulator after `search` marked the start state -/
+def startAcc (S : TSys σ κ) (mode : CacheMode) (s₀ : σ) : Acc σ κ :=
+  { (Acc.fresh mode : Acc σ κ) with cache := (Acc.fresh mode : Acc σ κ).cache.mark S s₀ }
+
+theorem search_dfs_eq (S : TSys σ κ) (mode : CacheMode) (fuel : Nat) (s₀ : σ) :
+    search S .dfs fuel s₀ (Acc.fresh mode) = dfs S fuel s₀ (startAcc S mode s₀) := rfl
+
+theorem search_bfs_eq (S : TSys σ κ) (mode : CacheMode) (fuel : Nat) (s₀ : σ) :
+    search S .bfs fuel s₀ (Acc.fresh mode) = bfsLoop S fuel [s₀] (startAcc S mode s₀) := rfl
+
+theorem startAcc_evald (S : TSys σ κ) (mode : CacheMode) (s₀ : σ) : (startAcc S mode s₀).evald = [] := rfl
+
+theorem startAcc_mode (S : TSys σ κ) (mode : CacheMode) (s₀ : σ) :
+    (startAcc S mode s₀).cache.mode = mode := mark_mode S _ s₀
+
+theorem startAcc_marked (S : TSys σ κ) (mode : CacheMode) (hm : ExactCache S mode) (s₀ : σ) (k : κ) :
+    Marked S (startAcc S mode s₀).cache k ↔ k = S.key s₀ := marked_fresh_iff S mode hm s₀ k
+
+theorem exhaustive_of_binv {S : TSys σ κ} (hc : Congruent S) {s₀ : σ} {c : Cache κ} {E : List σ}
+    (hb : BInv S [] c E) (hs : s₀ ∈ E) :
+    ∀ x, ReachC S s₀ x → (∃ e ∈ E, S.key e = S.key x) ∧ isFail (S.verdict x) = false := by
+  intro x hx
+  induction hx with
+  | refl => exact ⟨⟨s₀, hs, rfl⟩, hb.noFail _ hs⟩
+  | @step y x cs _ hv hsucc hmem ih =>
+    obtain ⟨⟨e, he, hk⟩, _⟩ := ih
+    obtain ⟨hve, _, hsucc', _⟩ := hc y e hk.symm
+    obtain ⟨cb, hcb, hkeys⟩ := hsucc' cs hsucc
+    have hkx : S.key x ∈ cb.map S.key := by
+      rw [← hkeys]; exact List.mem_map_of_mem hmem
+    obtain ⟨c', hc', hck⟩ := List.mem_map.mp hkx
+    have hmk : Marked S c (S.key c') := hb.closed e he (hve ▸ hv) cb hcb c' hc'
+    rcases hb.origin _ hmk with ⟨e', he', hk'⟩ | ⟨x', hx', _⟩
+    · have hkk : S.key e' = S.key x := by rw [hk', hck]
+      exact ⟨⟨e', he', hkk⟩, isFail_congr hc hkk (hb.noFail e' he')⟩
+    · simp at hx'
+
+theorem exhaustive_of_closedD {S : TSys σ κ} {s₀ : σ} {E : List σ} (hcl : ClosedD S E) (hs : s₀ ∈ E) :
+    ∀ x, ReachC S s₀ x → x ∈ E ∧ isFail (S.verdict x) = false := by
+  intro x hx
+  induction hx with
+  | refl => exact ⟨hs, (hcl _ hs).1⟩
+  | @step y x cs _ hv hsucc hmem ih =>
+    have hxE : x ∈ E := (hcl y ih.1).2 hv cs hsucc x hmem
+    exact ⟨hxE, (hcl x hxE).1⟩
+
+/-- the final state of an `ok` run with an exact cache -/
+theorem search_ok_binv (S : TSys σ κ) (strat : Strat) (mode : CacheMode) (hm : ExactCache S mode)
+    (fuel : Nat) (s₀ : σ) (a : Acc σ κ)
+    (h : search S strat fuel s₀ (Acc.fresh mode) = some (.ok, a)) :
+    BInv S [] a.cache a.evald ∧ s₀ ∈ a.evald := by
+  have hm' : ExactCache S (startAcc S mode s₀).cache.mode := by rw [startAcc_mode]; exact hm
+  cases strat with
+  | dfs =>
+    rw [search_dfs_eq] at h
+    obtain ⟨new, h1, h2, h3, _⟩ := (dfs_good S fuel).1 s₀ _ _ _ h rfl hm'
+    rw [startAcc_evald, List.nil_append] at h1
+    rw [h1]
+    refine ⟨⟨?_, h3.noFail, h3.closed⟩, h2⟩
+    intro k hk
+    rcases h3.origin k hk with hk | hk
+    · rw [startAcc_marked S mode hm] at hk
+      exact Or.inl ⟨s₀, h2, hk.symm⟩
+    · exact Or.inl hk
+  | bfs =>
+    rw [search_bfs_eq] at h
+    refine bfs_good S s₀ fuel [s₀] _ a h hm' ⟨?_, ?_, ?_⟩ (Or.inr (by simp))
+    · intro k hk
+      rw [startAcc_marked S mode hm] at hk
+      exact Or.inr ⟨s₀, by simp, hk.symm⟩
+    · intro e he; rw [startAcc_evald] at he; simp at he
+    · intro e he; rw [startAcc_evald] at he; simp at he
+
+/-- the final state of an `ok` run without a cache -/
+theorem search_ok_closedD (S : TSys σ κ) (strat : Strat) (fuel : Nat) (s₀ : σ) (a : Acc σ κ)
+    (h : search S strat fuel s₀ (Acc.fresh .disabled) = some (.ok, a)) :
+    ClosedD S a.evald ∧ s₀ ∈ a.evald := by
+  cases strat with
+  | dfs =>
+    rw [search_dfs_eq] at h
+    obtain ⟨new, h1, h2, h3, _⟩ := (dfs_closedD S fuel).1 s₀ _ _ _ h rfl (startAcc_mode S _ s₀)
+    rw [startAcc_evald, List.nil_append] at h1
+    rw [h1]
+    exact ⟨h3, h2⟩
+  | bfs =>
+    rw [search_bfs_eq] at h
+    refine bfs_closedD S s₀ fuel [s₀] _ a h (startAcc_mode S _ s₀) ?_ (Or.inr (by simp))
+    intro e he; rw [startAcc_evald] at he; simp at he
+
+/-! ## The theorems -/
 
 /-- (soundness of the exploration) every evaluated state is reachable through expanded states,
     for both strategies and every cache mode, whatever the result of the run -/
 theorem search_evald_reachable (S : TSys σ κ) (strat : Strat) (mode : CacheMode) (fuel : Nat) (s₀ : σ)
     (r : Res σ) (a : Acc σ κ) (h : search S strat fuel s₀ (Acc.fresh mode) = some (r, a)) :
-    ∀ e ∈ a.evald, ReachC S s₀ e := sorry
+    ∀ e ∈ a.evald, ReachC S s₀ e := by
+  cases strat with
+  | dfs =>
+    rw [search_dfs_eq] at h
+    exact dfs_reach S s₀ fuel s₀ _ r a h ReachC.refl (by intro e he; rw [startAcc_evald] at he; simp at he)
+  | bfs =>
+    rw [search_bfs_eq] at h
+    refine (bfs_reach S s₀ fuel [s₀] _ r a h ?_ ?_).1
+    · intro x hx; simp only [List.mem_singleton] at hx; subst hx; exact ReachC.refl
+    · intro e he; rw [startAcc_evald] at he; simp at he
 
 /-- (no repeats with an exact cache) with an exact cache no two evaluated states have the same key -/
 theorem search_evald_nodup_keys (S : TSys σ κ) (strat : Strat) (mode : CacheMode) (hm : ExactCache S mode)
     (fuel : Nat) (s₀ : σ) (r : Res σ) (a : Acc σ κ)
     (h : search S strat fuel s₀ (Acc.fresh mode) = some (r, a)) :
-    (a.evald.map S.key).Nodup := sorry
+    (a.evald.map S.key).Nodup := by
+  have hm' : ExactCache S (startAcc S mode s₀).cache.mode := by rw [startAcc_mode]; exact hm
+  have hmk : Marked S (startAcc S mode s₀).cache (S.key s₀) := (startAcc_marked S mode hm s₀ _).2 rfl
+  cases strat with
+  | dfs =>
+    rw [search_dfs_eq] at h
+    refine (dfs_nodup S mode hm fuel s₀ _ r a h (startAcc_mode S mode s₀) ⟨?_, ?_⟩ hmk ?_).1
+    · rw [startAcc_evald]; simp
+    · intro e he; rw [startAcc_evald] at he; simp at he
+    · rw [startAcc_evald]; simp
+  | bfs =>
+    rw [search_bfs_eq] at h
+    refine bfs_nodup S fuel [s₀] _ r a h hm' ?_ ?_
+    · rw [startAcc_evald]; simp
+    · intro x hx
+      rw [startAcc_evald] at hx
+      simp only [List.nil_append, List.mem_singleton] at hx
+      subst hx; exact hmk
 
 /-- (exhaustive, exact cache) an `ok` run evaluated a key-representative of every reachable state and
     none of the reachable states fails -/
 theorem search_ok_exhaustive (S : TSys σ κ) (hc : Congruent S) (strat : Strat) (mode : CacheMode)
     (hm : ExactCache S mode) (fuel : Nat) (s₀ : σ) (a : Acc σ κ)
     (h : search S strat fuel s₀ (Acc.fresh mode) = some (.ok, a)) :
-    ∀ x, ReachC S s₀ x → (∃ e ∈ a.evald, S.key e = S.key x) ∧ isFail (S.verdict x) = false := sorry
+    ∀ x, ReachC S s₀ x → (∃ e ∈ a.evald, S.key e = S.key x) ∧ isFail (S.verdict x) = false := by
+  obtain ⟨hb, hs⟩ := search_ok_binv S strat mode hm fuel s₀ a h
+  exact exhaustive_of_binv hc hb hs
 
 /-- (exhaustive, cache disabled) without a cache every reachable state itself is evaluated; no
     congruence needed -/
 theorem search_ok_exhaustive_disabled (S : TSys σ κ) (strat : Strat) (fuel : Nat) (s₀ : σ) (a : Acc σ κ)
     (h : search S strat fuel s₀ (Acc.fresh .disabled) = some (.ok, a)) :
-    ∀ x, ReachC S s₀ x → x ∈ a.evald ∧ isFail (S.verdict x) = false := sorry
+    ∀ x, ReachC S s₀ x → x ∈ a.evald ∧ isFail (S.verdict x) = false := by
+  obtain ⟨hcl, hs⟩ := search_ok_closedD S strat fuel s₀ a h
+  exact exhaustive_of_closedD hcl hs
 
 /-- (errors are genuine) an `err` result names an evaluated, reachable state whose verdict is that failure -/
 theorem search_err_genuine (S : TSys σ κ) (strat : Strat) (mode : CacheMode) (fuel : Nat) (s₀ e : σ)
     (msg : String) (a : Acc σ κ) (h : search S strat fuel s₀ (Acc.fresh mode) = some (.err msg e, a)) :
-    e ∈ a.evald ∧ S.verdict e = .fail msg ∧ ReachC S s₀ e := sorry
+    e ∈ a.evald ∧ S.verdict e = .fail msg ∧ ReachC S s₀ e := by
+  have hr := search_evald_reachable S strat mode fuel s₀ _ a h
+  cases strat with
+  | dfs =>
+    rw [search_dfs_eq] at h
+    obtain ⟨h1, h2⟩ := ((dfs_err S fuel).1 s₀ _ _ _ h).2 msg e rfl
+    exact ⟨h1, h2, hr e h1⟩
+  | bfs =>
+    rw [search_bfs_eq] at h
+    have := (bfs_reach S s₀ fuel [s₀] _ _ a h
+      (by intro x hx; simp only [List.mem_singleton] at hx; subst hx; exact ReachC.refl)
+      (by intro e he; rw [startAcc_evald] at he; simp at he)).2 msg e rfl
+    exact ⟨this.1, this.2, hr e this.1⟩
 
 /-- (Ok exactly when nothing reachable fails – the converse direction) if some reachable state fails, a
     run that finishes (enough fuel, no panic) with an exact cache and a congruent key, or with no
@@ -39,7 +181,13 @@ theorem search_err_genuine (S : TSys σ κ) (strat : Strat) (mode : CacheMode) (
 theorem search_not_ok_of_reachable_fail (S : TSys σ κ) (hc : Congruent S) (strat : Strat) (mode : CacheMode)
     (hm : ExactCache S mode ∨ mode = .disabled) (fuel : Nat) (s₀ x : σ) (a : Acc σ κ)
     (hx : ReachC S s₀ x) (hf : isFail (S.verdict x) = true) :
-    search S strat fuel s₀ (Acc.fresh mode) ≠ some (.ok, a) := sorry
+    search S strat fuel s₀ (Acc.fresh mode) ≠ some (.ok, a) := by
+  intro h
+  rcases hm with hm | rfl
+  · have := (search_ok_exhaustive S hc strat mode hm fuel s₀ a h x hx).2
+    rw [hf] at this; cases this
+  · have := (search_ok_exhaustive_disabled S strat fuel s₀ a h x hx).2
+    rw [hf] at this; cases this
 
 /-- (collected set is exact) the collected states are evaluated states satisfying the collect
     predicate, one per key, and every evaluated state satisfying it is represented -/
@@ -47,20 +195,55 @@ theorem search_collected_exact (S : TSys σ κ) (strat : Strat) (mode : CacheMod
     (r : Res σ) (a : Acc σ κ) (h : search S strat fuel s₀ (Acc.fresh mode) = some (r, a)) :
     (∀ c ∈ a.collected, c ∈ a.evald ∧ S.collect c = true) ∧
     (∀ e ∈ a.evald, S.collect e = true → ∃ c ∈ a.collected, S.key c = S.key e) ∧
-    (a.collected.map S.key).Nodup := sorry
+    (a.collected.map S.key).Nodup := by
+  have h0 : CollInv S (startAcc S mode s₀) := by
+    refine ⟨?_, ?_, ?_⟩
+    · intro c hc; simp [startAcc, Acc.fresh] at hc
+    · intro e he; simp [startAcc, Acc.fresh] at he
+    · simp [startAcc, Acc.fresh]
+  cases strat with
+  | dfs =>
+    rw [search_dfs_eq] at h
+    exact dfs_accInv S (CollInv S) (fun _ _ h => h) (collInv_check S) fuel s₀ _ r a h h0
+  | bfs =>
+    rw [search_bfs_eq] at h
+    exact bfs_accInv S (CollInv S) (fun _ _ h => h) (collInv_check S) fuel [s₀] _ r a h h0
 
 /-- (status counts are exact) each status is counted once per evaluated state that stopped with it -/
 theorem search_statuses_exact (S : TSys σ κ) (strat : Strat) (mode : CacheMode) (fuel : Nat) (s₀ : σ)
     (r : Res σ) (a : Acc σ κ) (h : search S strat fuel s₀ (Acc.fresh mode) = some (r, a)) (status : String) :
     ((a.statuses.filter (·.1 == status)).map (·.2)).sum =
-      (a.evald.filter (fun e => S.verdict e == .stop status)).length := sorry
+      (a.evald.filter (fun e => S.verdict e == .stop status)).length := by
+  have h0 : StatInv S (startAcc S mode s₀) := by
+    refine ⟨?_, ?_⟩
+    · simp [startAcc, Acc.fresh]
+    · intro st; simp [startAcc, Acc.fresh]
+  cases strat with
+  | dfs =>
+    rw [search_dfs_eq] at h
+    exact (dfs_accInv S (StatInv S) (fun _ _ h => h) (statInv_check S) fuel s₀ _ r a h h0).2 status
+  | bfs =>
+    rw [search_bfs_eq] at h
+    exact (bfs_accInv S (StatInv S) (fun _ _ h => h) (statInv_check S) fuel [s₀] _ r a h h0).2 status
 
 /-- (BFS and DFS agree) with an exact cache and a congruent key two `ok` runs evaluate the same set of keys -/
 theorem bfs_dfs_same_keys (S : TSys σ κ) (hc : Congruent S) (mode : CacheMode) (hm : ExactCache S mode)
     (f₁ f₂ : Nat) (s₀ : σ) (a₁ a₂ : Acc σ κ)
     (h₁ : search S .dfs f₁ s₀ (Acc.fresh mode) = some (.ok, a₁))
     (h₂ : search S .bfs f₂ s₀ (Acc.fresh mode) = some (.ok, a₂)) :
-    ∀ k, k ∈ a₁.evald.map S.key ↔ k ∈ a₂.evald.map S.key := sorry
+    ∀ k, k ∈ a₁.evald.map S.key ↔ k ∈ a₂.evald.map S.key := by
+  intro k
+  constructor
+  · intro hk
+    obtain ⟨e, he, rfl⟩ := List.mem_map.mp hk
+    have hr := search_evald_reachable S .dfs mode f₁ s₀ _ a₁ h₁ e he
+    obtain ⟨⟨e', he', hk'⟩, _⟩ := search_ok_exhaustive S hc .bfs mode hm f₂ s₀ a₂ h₂ e hr
+    exact List.mem_map.mpr ⟨e', he', hk'⟩
+  · intro hk
+    obtain ⟨e, he, rfl⟩ := List.mem_map.mp hk
+    have hr := search_evald_reachable S .bfs mode f₂ s₀ _ a₂ h₂ e he
+    obtain ⟨⟨e', he', hk'⟩, _⟩ := search_ok_exhaustive S hc .dfs mode hm f₁ s₀ a₁ h₁ e hr
+    exact List.mem_map.mpr ⟨e', he', hk'⟩
 
 /-- (cache modes agree) an `ok` run with an exact cache and an `ok` run with the cache disabled evaluate
     the same set of keys -/
@@ -68,18 +251,52 @@ theorem cache_modes_same_keys (S : TSys σ κ) (hc : Congruent S) (s₁ s₂ : S
     (hm : ExactCache S mode) (f₁ f₂ : Nat) (s₀ : σ) (a₁ a₂ : Acc σ κ)
     (h₁ : search S s₁ f₁ s₀ (Acc.fresh mode) = some (.ok, a₁))
     (h₂ : search S s₂ f₂ s₀ (Acc.fresh .disabled) = some (.ok, a₂)) :
-    ∀ k, k ∈ a₁.evald.map S.key ↔ k ∈ a₂.evald.map S.key := sorry
+    ∀ k, k ∈ a₁.evald.map S.key ↔ k ∈ a₂.evald.map S.key := by
+  intro k
+  constructor
+  · intro hk
+    obtain ⟨e, he, rfl⟩ := List.mem_map.mp hk
+    have hr := search_evald_reachable S s₁ mode f₁ s₀ _ a₁ h₁ e he
+    exact List.mem_map_of_mem (search_ok_exhaustive_disabled S s₂ f₂ s₀ a₂ h₂ e hr).1
+  · intro hk
+    obtain ⟨e, he, rfl⟩ := List.mem_map.mp hk
+    have hr := search_evald_reachable S s₂ .disabled f₂ s₀ _ a₂ h₂ e he
+    obtain ⟨⟨e', he', hk'⟩, _⟩ := search_ok_exhaustive S hc s₁ mode hm f₁ s₀ a₁ h₁ e hr
+    exact List.mem_map.mpr ⟨e', he', hk'⟩
 
 /-- (BFS counterexamples are shortest, cache disabled) if BFS without a cache reports an error on a
     state at distance `n`, no state at a smaller distance fails -/
 theorem bfs_err_min_depth_disabled (S : TSys σ κ) (fuel : Nat) (s₀ e : σ) (msg : String) (a : Acc σ κ)
     (h : search S .bfs fuel s₀ (Acc.fresh .disabled) = some (.err msg e, a)) :
-    ∃ n, ReachN S s₀ n e ∧ ∀ m x, m < n → ReachN S s₀ m x → isFail (S.verdict x) = false := sorry
+    ∃ n, ReachN S s₀ n e ∧ ∀ m x, m < n → ReachN S s₀ m x → isFail (S.verdict x) = false := by
+  rw [search_bfs_eq] at h
+  refine bfs_minDepth_disabled S s₀ fuel [s₀] _ msg e a h (startAcc_mode S _ s₀) ⟨0, [s₀], [], rfl, ?_⟩
+  refine ⟨?_, ?_, by simp, ?_⟩
+  · intro m x hm; omega
+  · intro x hx; simp only [List.mem_singleton] at hx; subst hx; exact ReachN.refl
+  · intro x hx
+    cases hx
+    exact Or.inl (by simp)
 
 /-- (BFS counterexamples are shortest, exact cache, congruent key) the same with a cache -/
 theorem bfs_err_min_depth (S : TSys σ κ) (hc : Congruent S) (mode : CacheMode) (hm : ExactCache S mode)
     (fuel : Nat) (s₀ e : σ) (msg : String) (a : Acc σ κ)
     (h : search S .bfs fuel s₀ (Acc.fresh mode) = some (.err msg e, a)) :
-    ∃ n, ReachN S s₀ n e ∧ ∀ m x, m < n → ReachN S s₀ m x → isFail (S.verdict x) = false := sorry
+    ∃ n, ReachN S s₀ n e ∧ ∀ m x, m < n → ReachN S s₀ m x → isFail (S.verdict x) = false := by
+  rw [search_bfs_eq] at h
+  have hm' : ExactCache S (startAcc S mode s₀).cache.mode := by rw [startAcc_mode]; exact hm
+  refine bfs_minDepth_exact S hc s₀ fuel [s₀] _ msg e a h ⟨hm', ⟨?_, ?_, ?_⟩, 0, [s₀], [], rfl, ?_⟩
+  · intro k hk
+    rw [startAcc_marked S mode hm] at hk
+    exact Or.inr ⟨s₀, by simp, hk.symm⟩
+  · intro e he; rw [startAcc_evald] at he; simp at he
+  · intro e he; rw [startAcc_evald] at he; simp at he
+  · refine ⟨?_, ?_, by simp, ?_⟩
+    · intro m x hm; omega
+    · intro x hx; simp only [List.mem_singleton] at hx; subst hx; exact ReachN.refl
+    · intro m x hm hx
+      obtain rfl : m = 0 := by omega
+      cases hx
+      exact Or.inr ⟨s₀, by simp, rfl⟩
 
 end Anysystem
